@@ -189,6 +189,31 @@ fn invalid_fixed() -> Vec<Case07> {
             add(format!("{a}{q}b"), "quantity ::= QuantExact | QuantRange | QuantMin with n <= m, decimal digits only");
         }
     }
+    // reversed bounds at every magnitude (compared as decimal numbers of any length: around the widths of machine
+    // integers a parser that wraps or saturates loses the order)
+    let mags: Vec<String> = {
+        let mut m: Vec<u128> = vec![0, 1, 2, 9, 10, 11, 99, 100, 255, 256, 257, 32767, 32768, 65535, 65536, 65537];
+        for b in [31u32, 32, 63, 64] {
+            let x = 1u128 << b;
+            m.extend([x - 2, x - 1, x, x + 1]);
+        }
+        m.extend([9_999_999_999_999_999_999u128, 10_000_000_000_000_000_000, 99_999_999_999_999_999_999, 100_000_000_000_000_000_000, (1u128 << 64) * 10, u128::MAX]);
+        m.sort();
+        m.dedup();
+        let mut v: Vec<String> = m.iter().map(|x| x.to_string()).collect();
+        v.push(format!("{}7", u128::MAX));
+        v
+    };
+    for (i, lo) in mags.iter().enumerate() {
+        for (k, hi) in mags.iter().enumerate().skip(i + 1) {
+            // hi > lo numerically: {hi,lo} is a reversed range
+            let pad = if (i + k) % 3 == 0 { "00" } else { "" };
+            add(format!("a{{{pad}{hi},{lo}}}"), "quantity ::= QuantRange with n <= m (reversed bounds, any magnitude)");
+            if (i + k) % 5 == 0 {
+                add(format!("(?:ab){{{hi},{pad}{lo}}}?c"), "quantity ::= QuantRange with n <= m (reversed bounds, any magnitude)");
+            }
+        }
+    }
     // escapes
     for c in "abefghjklmoquvxyzABEFGHJKLMNOQRTUVXYZ0_ ,:;#&'\"!%/=<>@~`".chars() {
         add(format!("\\{c}"), "not a SingleCharEsc, MultiCharEsc, catEsc or back-reference");
